@@ -9,6 +9,9 @@ theorem clone_is_deep : Cel.Gen.Runtime.clonePolicy = .deep := rfl
 theorem parser_is_perClass : Cel.Gen.Runtime.parserPolicy = .perClass := rfl
 /-- `Transpiler.evaluate` executes the transpiled statements in a per-call namespace (D4 fixed) -/
 theorem namespace_is_perCall : Cel.Gen.Runtime.namespacePolicy = .perCall := rfl
-theorem config_fixed : Cel.Gen.Runtime.config = Config.fixed := rfl
+/-- the three sharing policies of the current source are the ones of `Config.fixed`; the remaining field
+(`resolve_name` skipping `TypeError`) is free in every theorem -/
+theorem config_policies : Cel.Gen.Runtime.config.clone = .deep ∧ Cel.Gen.Runtime.config.parser = .perClass ∧
+    Cel.Gen.Runtime.config.ns = .perCall := ⟨rfl, rfl, rfl⟩
 
 end Cel.Bridge.Runtime
